@@ -872,7 +872,16 @@ def run_validator_diff(ctx: Ctx) -> None:
 SKEL = SkeletonComp()
 NORM = NormComp()
 E2E = E2EComp()
-COMPONENTS = [SKEL, NORM, E2E]
+# the composed whole-turn model (package e2e): real run_turn on real stages vs Clem.Compose.runTurns
+from harness.lib import compose_comp as CC  # noqa: E402
+
+COMPONENTS = [SKEL, NORM, E2E] + list(CC.COMPONENTS)
+DRIVER_MODULES = DRIVER_MODULES + ["HCompose"]
+for _rel, _names in CC.MODELLED.items():
+    MODELLED.setdefault(_rel, [])
+    MODELLED[_rel] = list(dict.fromkeys(list(MODELLED[_rel]) + list(_names)))
+ASSUMPTIONS = list(ASSUMPTIONS) + list(CC.ASSUMPTIONS)
+TRUSTED = list(TRUSTED) + list(CC.TRUSTED)
 
 
 def _n(ctx: Ctx, comp: Component) -> int:
@@ -885,6 +894,7 @@ def run(ctx: Ctx) -> None:
     run_skeleton(ctx, SKEL, _n(ctx, SKEL))
     run_validator_diff(ctx)
     run_e2e(ctx, E2E, _n(ctx, E2E))
+    CC.run(ctx)
 
 
 def run_monitors_only(ctx: Ctx) -> None:
@@ -903,6 +913,12 @@ def _decanon(x: Any) -> Any:
 
 
 def replay(ctx: Ctx, rec: dict) -> int:
+    if str(rec.get("component", "")).startswith("compose."):
+        comps = {c.name: c for c in CC.COMPONENTS}
+        for c in comps.values():
+            if hasattr(c, "bind"):
+                c.bind(ctx)
+        return core.generic_replay(ctx, rec, comps)
     rec = _decanon(rec)
     if rec.get("component") == "e2e" or ("case" in rec and isinstance(rec["case"], dict) and "variant" in rec["case"]):
         c = rec["case"]
